@@ -22,7 +22,7 @@ Section Sem.
   Record cvsem := mk_cvsem {
     cs_data : option cvdata;      (* None: not known (new variable, or a state-changing body ran since the last step) *)
     cs_collect : bool;            (* feature collect_gradient enabled *)
-    cs_valid : bool }.            (* gradients collected since the feature was enabled *)
+    cs_valid : option bool }.     (* gradients collected since the feature was enabled (None: not known, e.g. after a failed step or `update`) *)
   Record moddata := mk_moddata {
     md_step : Z; md_energy : T;
     md_ids : list Z; md_masses : list T; md_charges : list T;
@@ -32,7 +32,8 @@ Section Sem.
     sm_cv : list (string * cvsem);
     sm_bias : list (string * option T);
     sm_mod : option moddata }.
-  Record obs := mk_obs { ob_mod : moddata; ob_cv : list (string * cvdata); ob_bias : list (string * T) }.
+  Record obs := mk_obs { ob_ok : bool;  (* the step returned without error (a failing step stops before some variables are updated) *)
+                         ob_mod : moddata; ob_cv : list (string * cvdata); ob_bias : list (string * T) }.
 
   Inductive qresult :=
   | QErr                      (* the call answers with an error *)
@@ -48,7 +49,20 @@ Section Sem.
   Fixpoint aset {A} (n : string) (a : A) (l : list (string * A)) : list (string * A) :=
     match l with [] => [] | (m, b) :: r => if String.eqb m n then (m, a) :: r else (m, b) :: aset n a r end.
 
-  Definition fresh_cv : cvsem := mk_cvsem None false false.
+  Definition fresh_cv : cvsem := mk_cvsem None false (Some false).
+
+  (* are gradients available after a step?  requested + (already there, or the step ran through and the variable is active) *)
+  Definition step_valid (ok : bool) (c : cvsem) (d : option cvdata) : option bool :=
+    if cs_collect c then
+      match cs_valid c with
+      | Some true => Some true
+      | v => if ok then match d with
+                        | Some x => if cd_active x then Some true else v
+                        | None => None
+                        end
+             else None
+      end
+    else Some false.
 
   (* after a structural command: keep what is known about the objects that remain, new objects are fresh *)
   Definition resync (st : sem) (objs : mstate) : sem :=
@@ -66,8 +80,7 @@ Section Sem.
   Definition sem_step (st : sem) (ob : obs) : sem :=
     mk_sem (sm_objs st)
       (map (fun p => let d := alookup (fst p) (ob_cv ob) in
-                     (fst p, mk_cvsem d (cs_collect (snd p))
-                        (cs_collect (snd p) && (cs_valid (snd p) || match d with Some x => cd_active x | None => false end))))
+                     (fst p, mk_cvsem d (cs_collect (snd p)) (step_valid (ob_ok ob) (snd p) d)))
            (sm_cv st))
       (map (fun p => (fst p, alookup (fst p) (ob_bias ob))) (sm_bias st))
       (Some (ob_mod ob)).
@@ -117,7 +130,7 @@ Section Sem.
        "bias_type"; "bias_getconfig"; "bias_help"; "bias_state"; "bias_savetostring"; "bias_get"; "bias_bin"; "bias_bincount";
        "bias_binnum"; "bias_local_sample_count"; "bias_share"; "bias_save"].
 
-  Definition set_flags (st : sem) (n : string) (c v : bool) : sem :=
+  Definition set_flags (st : sem) (n : string) (c : bool) (v : option bool) : sem :=
     match alookup n (sm_cv st) with
     | Some cs => mk_sem (sm_objs st) (aset n (mk_cvsem (cs_data cs) c v) (sm_cv st)) (sm_bias st) (sm_mod st)
     | None => st
@@ -139,16 +152,29 @@ Section Sem.
         match alookup obj (sm_cv st) with
         | None => (st, QOk)
         | Some cs =>
-          if negb (cs_collect cs) then (set_flags st obj true false, QErr)      (* enabled on demand; nothing collected yet *)
-          else if negb (cs_valid cs) then (st, QErr)
-          else (st, match cs_data cs with Some d => QVecs (cd_grads d) | None => QOk end)
+          if negb (cs_collect cs) then (set_flags st obj true (Some false), QErr)      (* enabled on demand; nothing collected yet *)
+          else match cs_valid cs with
+               | Some false => (st, QErr)
+               | Some true => (st, match cs_data cs with Some d => QVecs (cd_grads d) | None => QOk end)
+               | None => (st, QOk)
+               end
         end
       else if String.eqb fn "colvar_set" && String.eqb (nth 4 words "") "collect_gradient" then
         match alookup obj (sm_cv st), truthy (nth 5 words "") with
-        | Some cs, Some true => (if cs_collect cs then st else set_flags st obj true false, QOk)
-        | Some cs, Some false => (set_flags st obj false false, QOk)
+        | Some cs, Some true => (if cs_collect cs then st else set_flags st obj true (Some false), QOk)
+        | Some cs, Some false => (set_flags st obj false (Some false), QOk)
         | _, _ => (st, QErr)
         end
+      else if String.eqb fn "colvar_update" then
+        (* recomputes this variable (gradients are collected again if requested): numbers and availability unknown *)
+        (match alookup obj (sm_cv st) with
+         | Some cs => set_flags (invalidate st) obj (cs_collect cs) (if cs_collect cs then None else Some false)
+         | None => invalidate st
+         end, QOk)
+      else if String.eqb fn "cv_update" then
+        (let st' := invalidate st in
+         mk_sem (sm_objs st') (map (fun p => (fst p, mk_cvsem None (cs_collect (snd p)) (if cs_collect (snd p) then None else Some false))) (sm_cv st'))
+                (sm_bias st') (sm_mod st'), QOk)
       else (invalidate st, QOk)       (* any other body: may change numbers; its own answer is not modelled *)
     end.
 
